@@ -86,7 +86,7 @@ def replay_trace(events, root, res_labels):
                 i = m.vol.get(target)
                 if i is not None:
                     m.inodes[i]["v"] += 1
-            elif name == "os.write":
+            elif name in ("os.write", "file.flush"):
                 i = m.vol.get(target)
                 if i is not None:
                     m.inodes[i]["v"] += 1
@@ -117,7 +117,7 @@ def replay_trace(events, root, res_labels):
                 if i is not None:
                     m.vol[target] = i
                     if target == HINT:
-                        flips.append((idx, m.content.get(i, b""), i, dict(m.inodes[i])))
+                        flips.append((idx, info.get("pointer_content") or m.content.get(i, b""), i, dict(m.inodes[i])))
             elif name in ("os.remove", "os.unlink"):
                 m.vol.pop(target, None)
             elif name == "os.makedirs":
@@ -150,7 +150,16 @@ def check_case(case):
         full = []
         tr.record = False
         cur_op = ["create"]
-        tr.handler = lambda n, phase, layer, name, target, info: full.append((n, phase, layer, name, target, info, cur_op[0]))
+        def rec(n, phase, layer, name, target, info):
+            if phase == "after" and name == "os.replace" and target == HINT:
+                try:
+                    with open(os.path.join(root, HINT), "rb") as fh:
+                        info = dict(info or {}, pointer_content=fh.read())
+                except OSError:
+                    pass
+            full.append((n, phase, layer, name, target, info, cur_op[0]))
+
+        tr.handler = rec
         with installed(tr, storage_level=False):
             eng = Engine(root, props=())
             try:
